@@ -584,13 +584,49 @@ def blob_eq(b1, b2):
     if k1 is not None and k2 is not None and k1 is not k2:
         return False
     e = E()
-    if e.tags.get('collision_free') and b1.meta.get('uf') and b1.meta.get('uf') == b2.meta.get('uf'):
-        return False
     cache = e.tags.setdefault('blob_eq', {})
     key = tuple(sorted([b1.name, b2.name]))
-    if key not in cache:
-        cache[key] = e.newvar('blob_eq_%s_%s' % key, z3.BoolSort())
-    return SxBool(cache[key])
+    if key in cache:
+        c = cache[key]
+        return c if _isinstance(c, builtins.bool) else SxBool(c)
+    same_uf = b1.meta.get('uf') and b1.meta.get('uf') == b2.meta.get('uf') and 'uf_args' in b1.meta and 'uf_args' in b2.meta
+    if same_uf:
+        # two results of one uninterpreted function: equal arguments give equal results (congruence);
+        # under the collision-freedom switch the converse holds too
+        aeq = _uf_args_eq(b1.meta['uf_args'], b2.meta['uf_args'])
+        if e.tags.get('collision_free'):
+            cache[key] = aeq if _isinstance(aeq, builtins.bool) else tobool(aeq)
+            c = cache[key]
+            return c if _isinstance(c, builtins.bool) else SxBool(c)
+        if _isinstance(aeq, builtins.bool) and aeq:
+            cache[key] = True
+            return True
+    v = e.newvar('blob_eq_%s_%s' % key, z3.BoolSort())
+    if same_uf and not _isinstance(aeq, builtins.bool):
+        e.add(z3.Implies(tobool(aeq), v))
+    cache[key] = v
+    return SxBool(v)
+
+
+def _uf_args_eq(a1, a2):
+    if _len(a1) != _len(a2):
+        return False
+    conds = []
+    for x, y in zip(a1, a2):
+        if isrope(x) or isrope(y) or _isinstance(x, (_bytes, bytearray)) or _isinstance(y, (_bytes, bytearray)):
+            c = rope_eq(x, y)
+        elif x is None or y is None:
+            c = x is y
+        else:
+            c = (x == y)
+        if _isinstance(c, builtins.bool):
+            if not c:
+                return False
+            continue
+        conds.append(c)
+    if not conds:
+        return True
+    return core.And(*conds)
 
 
 def rope_key(x):
@@ -614,7 +650,7 @@ def _opaque_eq(x, y, leq):
         # assumption switch: distinct arguments of one uninterpreted function give distinct results
         bx, by = full_view_blob(x) if isrope(x) else None, full_view_blob(y) if isrope(y) else None
         if bx is not None and by is not None and bx is not by and bx.meta.get('uf') and bx.meta.get('uf') == by.meta.get('uf'):
-            return False
+            return blob_eq(bx, by)
     kx, ky = rope_key(x), rope_key(y)
     key = ('opqeq',) + tuple(sorted([kx, ky], key=repr))
     cache = e.tags.setdefault('opaque_eq', {})
